@@ -64,7 +64,11 @@ def rdObs : Rd Pred.C03.Obs := do
 def c03wire : Handler :=
   mkHandler
     (do let w ← rdWire; let b ← Rd.bytes; let qs ← Rd.list Rd.u8
-        if w.encode != b then Rd.fail else pure (w, b, qs))
+        if w.encode != b then Rd.fail else
+        -- the specification's own decoder (oracle of c03.mut) must find every well-formed image again
+        match Wire.describe b with
+        | some w' => if w'.toPacket != w.toPacket then Rd.fail else pure (w, b, qs)
+        | none => if w.WF then Rd.fail else pure (w, b, qs))
     rdObs
     (fun (_, b, qs) => Pred.C03.modelObs b qs)
     (fun (w, b, qs) o => Pred.C03.wire w b qs o)
@@ -76,7 +80,8 @@ def c03wire : Handler :=
 /-- `c03.mut` -/
 def c03mut : Handler :=
   mkHandler (do let b ← Rd.bytes; let qs ← Rd.list Rd.u8; pure (b, qs)) rdObs
-    (fun (b, qs) => Pred.C03.modelObs b qs) (fun _ o => Pred.C03.mutOK o)
+    (fun (b, qs) => Pred.C03.modelObs b qs) (fun (b, qs) o => Pred.C03.mutOK b qs o)
+    (fun (b, _) => Pred.C03.mutWF b) (fun (b, _) _ => Pred.C03.mutRegion b)
 
 def rdViewKind : Rd ViewKind := do
   let t ← Rd.nat
